@@ -64,6 +64,9 @@ func (e *Env) syncCloneSet(cs *kruisev1alpha1.CloneSet) string {
 	if P > R {
 		P = R
 	}
+	if P < 0 {
+		P = 0 // (the API server's validation of a real CloneSet rejects a negative partition; the model tolerates it)
+	}
 	S := int32(0)
 	if cs.Spec.UpdateStrategy.MaxSurge != nil {
 		n, _ := intstr.GetScaledValueFromIntOrPercent(cs.Spec.UpdateStrategy.MaxSurge, int(R), true)
@@ -80,6 +83,44 @@ func (e *Env) syncCloneSet(cs *kruisev1alpha1.CloneSet) string {
 		if !isAvail(p) {
 			unavailableNow++
 		}
+	}
+	// A real controller writes the status at the end of every sync, i.e. also between two pod actions: in half of the
+	// steps (by the scheduler's pick) the status is brought up to date first, in the other half the next pod action comes
+	// first and the status lags - both orders happen in a cluster.
+	writeStatus := func() bool {
+		st := cs.Status.DeepCopy()
+		st.ObservedGeneration = cs.Generation
+		st.Replicas = T
+		st.ReadyReplicas, st.AvailableReplicas, st.UpdatedReplicas, st.UpdatedReadyReplicas = 0, 0, int32(len(news)), 0
+		for _, p := range pods {
+			if podReady(p) {
+				st.ReadyReplicas++
+			}
+			if isAvail(p) {
+				st.AvailableReplicas++
+			}
+		}
+		for _, p := range news {
+			if podReady(p) {
+				st.UpdatedReadyReplicas++
+			}
+		}
+		st.UpdateRevision = update
+		st.CurrentRevision = current
+		st.ExpectedUpdatedReplicas = R - P
+		if len(olds) == 0 && T == R && st.UpdatedReadyReplicas == R || R == 0 && T == 0 {
+			st.CurrentRevision = update
+		}
+		st.LabelSelector = metav1.FormatLabelSelector(cs.Spec.Selector)
+		if fmt.Sprint(*st) != fmt.Sprint(cs.Status) {
+			cs.Status = *st
+			must(e.C.Status().Update(ctx(), cs))
+			return true
+		}
+		return false
+	}
+	if e.pick%2 == 1 && writeStatus() {
+		return "cs-status"
 	}
 	updating := int32(len(olds)) > P && !cs.Spec.UpdateStrategy.Paused
 	allowedTotal := R
@@ -117,8 +158,9 @@ func (e *Env) syncCloneSet(cs *kruisev1alpha1.CloneSet) string {
 		mkPod(rev, &cs.Spec.Template)
 		return "cs-create-pod"
 	}
-	// 2. scale in
-	if T > allowedTotal {
+	// 2. scale in: more pods than replicas + surge; the surge is room for new-revision pods, old-revision pods beyond the
+	// replica count are surplus whatever the surge says (a user's scale-down in the middle of a surging update)
+	if T > allowedTotal || int32(len(olds)) > R {
 		var victim *corev1.Pod
 		for _, p := range pods {
 			if !podReady(p) {
@@ -155,33 +197,7 @@ func (e *Env) syncCloneSet(cs *kruisev1alpha1.CloneSet) string {
 		return "cs-recreate-old-pod"
 	}
 	// 4. status
-	st := cs.Status.DeepCopy()
-	st.ObservedGeneration = cs.Generation
-	st.Replicas = T
-	st.ReadyReplicas, st.AvailableReplicas, st.UpdatedReplicas, st.UpdatedReadyReplicas = 0, 0, int32(len(news)), 0
-	for _, p := range pods {
-		if podReady(p) {
-			st.ReadyReplicas++
-		}
-		if isAvail(p) {
-			st.AvailableReplicas++
-		}
-	}
-	for _, p := range news {
-		if podReady(p) {
-			st.UpdatedReadyReplicas++
-		}
-	}
-	st.UpdateRevision = update
-	st.CurrentRevision = current
-	st.ExpectedUpdatedReplicas = R - P
-	if len(olds) == 0 && T == R && st.UpdatedReadyReplicas == R || R == 0 && T == 0 {
-		st.CurrentRevision = update
-	}
-	st.LabelSelector = metav1.FormatLabelSelector(cs.Spec.Selector)
-	if fmt.Sprint(*st) != fmt.Sprint(cs.Status) {
-		cs.Status = *st
-		must(e.C.Status().Update(ctx(), cs))
+	if writeStatus() {
 		return "cs-status"
 	}
 	return ""
